@@ -3,6 +3,7 @@ UNITS = {
     "health": dict(engine="verus", serves=["C20"]),
     "authz": dict(engine="verus", serves=["C02", "C11"]),
     "handler": dict(engine="verus", serves=["C01", "C05", "C11", "C14", "C15"]),
+    "disk": dict(engine="verus", serves=["C19"]),
     "authorizer": dict(engine="verus", serves=["C03", "C11", "C01"]),
 }
 
@@ -55,6 +56,23 @@ PROPERTIES["C01"] = dict(
     level_text="Deductive proof (Verus/Z3), all requests/configurations.",
     level_note="see evidence trusted_base",
     design_ref="DESIGN.md section 3 C01",
+    assumptions=[],
+)
+
+PROPERTIES["C19"] = dict(
+    units=["disk"],
+    technique="Verus contracts on the extracted real functions over a ghost directory model (E4 Tracked<&mut Dir> threaded through stubs of remove_file/rename/open/write/listing); whole-directory postconditions and inductive invariants",
+    level_text="Deductive proof (Verus/Z3), all histories and any start state: write_all and RollingLogger::archive_file (verbatim, incl. their "
+               "deletion loops and usize/u16 overflow obligations) are proved to leave at most max-1 files of their class for ANY number found, "
+               "removing a prefix of the sorted listing (oldest first), so that after the one file written / re-opened the count is <= max; "
+               "roll_if_needed/write_line/write_many/write preserve the count invariant and keep every log file <= limit + one write; the "
+               "file-count guard of event_logger::start (E5 slice) writes only when listed files < cap; configured counts >= 1 proved at every call site.",
+    level_note="Trusted: Verus/Z3/rustc; the directory model (listing stubs return exactly the class, sorted; POSIX remove/rename/metadata; "
+               "open_file creates the current file empty; json_write_to_file adds <= 1 file; LineWriter bytes accounted when handed over); "
+               "name order = age order for archive/dump names; Vec length < usize::MAX. Bounds hold along histories where remove_file and the "
+               "deciding listing do not fail (after a failure the next roll/write_all restores them from any state, proved). Not covered: "
+               "several threads using one RollingLogger, other processes writing the directories, get_log_files'/get_files' own read_dir loops.",
+    design_ref="DESIGN.md section 3 C19",
     assumptions=[],
 )
 
